@@ -1053,6 +1053,7 @@ static iwrc _fsm_resize_fsm_bitmap_lw(struct fsm *fsm, uint64_t size) {
   iwrc rc;
   uint64_t bmoffset = 0, bmlen, sp;
   IWFS_EXT *pool = &fsm->pool;
+  bool carved = false;
 
   if (fsm->bmlen >= size) {
     return 0;
@@ -1062,6 +1063,7 @@ static iwrc _fsm_resize_fsm_bitmap_lw(struct fsm *fsm, uint64_t size) {
     fsm, (bmlen >> fsm->bpow), &bmoffset, &sp, UINT64_MAX,
     IWFSM_ALLOC_NO_STATS | IWFSM_ALLOC_NO_EXTEND | IWFSM_ALLOC_NO_OVERALLOCATE);
   if (!rc) {
+    carved = true;
     bmoffset = bmoffset << fsm->bpow;
     bmlen = sp << fsm->bpow;
   } else if (rc == IWFS_ERROR_NO_FREE_SPACE) {
@@ -1075,6 +1077,9 @@ static iwrc _fsm_resize_fsm_bitmap_lw(struct fsm *fsm, uint64_t size) {
   rc = _fsm_init_lw(fsm, bmoffset, bmlen);
   if (rc && !fsm->mmap_all) {
     pool->remove_mmap(pool, bmoffset);
+  }
+  if (rc && carved) { // The bitmap stays where it was: give back the blocks taken for the new area
+    _fsm_blk_deallocate_lw(fsm, (bmoffset >> fsm->bpow), (bmlen >> fsm->bpow));
   }
   return rc;
 }
